@@ -40,6 +40,9 @@ def hints(a):
 def solve(prog):
     """Fresh build + Model.main(); returns the time series dict or the exception."""
     mod, objs = G.build(prog)
+    # the iteration cap is a solver setting, not the generator's subject: give the fixed-point iteration room so that
+    # marginally slow systems (and larger joint systems, whose summed error measure falls more slowly) still solve
+    mod.EquationSolver.MaxIterations = 3000
     try:
         mod.main()
     except Exception as e:  # noqa
